@@ -50,6 +50,9 @@ def exit_worlds(fi: FuncInfo, table) -> Tuple[CFG, Set[frozenset]]:
     return cfg, {frozenset(f for f in w if isinstance(f, str)) for w in IN[cfg.exit.id]}
 
 
+NEEDS_READER = True  # the attached C01 clauses read the netlisters' conventions
+
+
 def check(repo: Repo, R) -> None:
     pairing(repo, R)
     shared.owner_only_writes(repo, R, "C04.2-owner-only-writes",
@@ -57,6 +60,20 @@ def check(repo: Repo, R) -> None:
     one_ref_per_port(repo, R)
     snapshot_iteration(repo, R)
     funnels(repo, R)
+    # what elaboration makes of the last connection: the clauses of reference resolution that decide which net a
+    # (re-)connected port ends up on
+    from . import c01
+
+    def _sel(r, k):
+        if r.startswith("C01.1-"):
+            return "C04.6-last-connection-resolved"
+        if r.startswith("C01.14-"):
+            return "C04.6-last-connection-resolved"
+        if r.startswith("C01.15-") and ("follow" in k or "find_source" in k or "handle_portconn" in k):
+            return "C04.6-last-connection-resolved"
+        return None
+
+    c01.check(repo, shared.Retag(R, _sel, "the connection made last is not what the port is built on: a reference group finds no (or another) source, and the port is moved onto a fresh or stale net"))
     R.floor("C04.1-conns-backref-pairing", 6)
     R.floor("C04.3-one-ref-per-port", 4)
     R.floor("C04.4-snapshot-iteration", 3)
